@@ -6,8 +6,9 @@
    ext_mul/ext_div with None = undefined (inf-inf, 0*inf, x/0), lexicographic pairs) and, for lin, eval/lwf/lnz of Lin.v.
    (generated from the lemma statements by `Check`; families of operators are bundled into one conjunction each because
    Print Assumptions costs 0.4 s per theorem) *)
-From Coq Require Import ZArith NArith QArith List Bool.
-From ORatio Require Import gen.Gen_arith base.RatSpec base.Lin proofs.Rat_Proofs proofs.InfRat_Proofs proofs.Lin_Proofs.
+From Coq Require Import ZArith NArith QArith List Bool String Ascii.
+From ORatio Require Import gen.Gen_arith base.RatSpec base.Lin base.DecStr base.ArithStr.
+From ORatio Require Import proofs.Rat_Proofs proofs.InfRat_Proofs proofs.Lin_Proofs proofs.DecStr_Proofs proofs.ArithStr_Proofs.
 Import ListNotations.
 Local Open Scope Z_scope.
 
@@ -686,3 +687,60 @@ Theorem C15_lop_run_spec :
   (Forall lop_nzok ops -> lnz l -> lnz (fold_left lop_step ops l)).
 Proof. exact lop_run_spec. Qed.
 Print Assumptions C15_lop_run_spec.
+
+(* ---- printed keys: std::to_string of integers (base/DecStr.v) and to_string(rational / inf_rational / lin) (base/ArithStr.v,
+   compared with the C++ printers on every generated value) determine the values they print. lra_theory shares slack
+   variables by to_string(lin) and assertions by "x<slack> <= " + to_string(inf_rational): two different canonical expressions /
+   bounds can never share a key. to_string(inf_rational) prints every value with an infinite rational part as that infinity:
+   injective where the infinitesimal part is then zero (icanon), refuted otherwise (witness +inf vs +inf + eps) *)
+
+Theorem C15_decimal_printing_injective :
+  (forall z z' : Z, str_Z z = str_Z z' -> z = z') /\
+  (forall n n' : N, str_N n = str_N n' -> n = n') /\
+  (forall n n' : nat, str_nat n = str_nat n' -> n = n') /\
+  (forall p p' : positive, str_pos p = str_pos p' -> p = p') /\
+  (forall z : Z,
+  allc is_num (str_Z z) = true /\
+  str_Z z <> ""%string /\
+  match z with
+  | 0 => str_Z z = "0"%string
+  | Z.pos p => str_Z z = str_pos p
+  | Z.neg p => str_Z z = String "-" (str_pos p)
+  end) /\
+  (forall n : N, allc is_digit (str_N n) = true /\ str_N n <> ""%string) /\
+  (forall n : nat, allc is_digit (str_nat n) = true /\ str_nat n <> ""%string) /\
+  (forall p : positive,
+  exists (a : ascii) (r : string), str_pos p = String a r /\ is_digit a = true /\ a <> "0"%char) /\
+  (forall (z : Z) (a : ascii) (r : string), str_Z z = String a r -> a = "0"%char -> z = 0) /\
+  (forall (n : N) (a : ascii) (r : string), str_N n = String a r -> a = "0"%char -> n = 0%N).
+Proof. exact decimal_printing_spec. Qed.
+Print Assumptions C15_decimal_printing_injective.
+
+Theorem C15_rational_to_string_injective :
+  forall r r' : rat, wf r -> wf r' -> rat_to_string r = rat_to_string r' -> r = r'.
+Proof. exact rat_to_string_inj. Qed.
+Print Assumptions C15_rational_to_string_injective.
+
+Theorem C15_inf_rational_to_string_injective :
+  forall x x' : irat, icanon x -> icanon x' -> irat_to_string x = irat_to_string x' -> x = x'.
+Proof. exact irat_to_string_inj. Qed.
+Print Assumptions C15_inf_rational_to_string_injective.
+
+Theorem C15_inf_rational_to_string_injective_without_side_condition_refuted :
+  exists x x' : irat, iwf x /\ iwf x' /\ x <> x' /\ irat_to_string x = irat_to_string x'.
+Proof. exact irat_to_string_refuted_without_side_condition. Qed.
+Print Assumptions C15_inf_rational_to_string_injective_without_side_condition_refuted.
+
+Theorem C15_lin_to_string_injective :
+  forall l l' : lin, lwf l -> lwf l' -> lin_to_string l = lin_to_string l' -> l = l'.
+Proof. exact lin_to_string_inj. Qed.
+Print Assumptions C15_lin_to_string_injective.
+
+Theorem C15_lin_to_string_injective_unsorted :
+  forall l l' : lin,
+  Forall (fun t : var * rat => wf (snd t)) (lin_vars l) ->
+  wf (lin_known l) ->
+  Forall (fun t : var * rat => wf (snd t)) (lin_vars l') ->
+  wf (lin_known l') -> lin_to_string l = lin_to_string l' -> l = l'.
+Proof. exact lin_to_string_inj_coefs. Qed.
+Print Assumptions C15_lin_to_string_injective_unsorted.
